@@ -122,8 +122,11 @@ impl Monitor for C18 {
                         }
                     }
                 }
-                if np.liquidity != 0 || !is_empty(&np) || np.fee_growth_checkpoint_a != 0 || np.fee_growth_checkpoint_b != 0 {
+                if np.liquidity != 0 || !is_empty(&np) || np.fee_growth_checkpoint_a != 0 || np.fee_growth_checkpoint_b != 0 || np.reward_infos.iter().any(|r| r.growth_inside_checkpoint != 0) {
                     fail(acc, "fresh_position_not_blank", "a freshly opened position carries liquidity, owed amounts or checkpoints".into());
+                }
+                if Some(np.whirlpool) != slot("whirlpool") {
+                    fail(acc, "fresh_position_not_blank", format!("a freshly opened position references pool {} instead of the pool it was opened on", np.whirlpool));
                 }
                 if name != "open_bundled_position" {
                     // exactly one position token, no mint authority left
